@@ -40,7 +40,7 @@ def gen_arith(g, depth, ty, stream, allow_dst):
         return ('bin', g.choice([4, 5]), e1, e2)
     e1 = gen_arith(g, depth - 1, ty, stream, allow_dst)
     if e1[0] == 'const': e1 = ('leaf', 1)
-    if r == 11 and isf: return ('un', 4, ('un', 1, e1))       # sqrt(abs(.))
+    if r == 11 and (isf or stream != 'boundary'): return ('un', 4, ('un', 1, e1))       # sqrt(abs(.)), also on integer tensors (generic lane loop)
     if r == 10 and isf and stream in ('frac', 'special'): return ('un', g.choice([5, 6, 7, 8]), e1)   # floor ceil round trunc
     return ('un', g.choice([0, 1]), e1)
 
@@ -84,7 +84,7 @@ def scalar_expr(e, ty):
         if e[1] == 1: return 'std::abs(%s)' % a if isf else 'wabs<%s>(%s)' % (T, a)
         if e[1] == 2: return '(!%s)' % a
         if e[1] >= 5: return 'std::%s(%s)' % ({5: 'floor', 6: 'ceil', 7: 'round', 8: 'trunc'}[e[1]], a)
-        return 'std::sqrt(%s)' % a
+        return 'std::sqrt(%s)' % a if isf else '((%s)std::sqrt((double)(%s)))' % (T, a)
     a, b = scalar_expr(e[2], ty), scalar_expr(e[3], ty)
     if e[1] in (4, 5): return 'std::%s<%s>(%s,%s)' % ('min' if e[1] == 4 else 'max', T, a, b)
     if not isf and e[1] in (0, 1, 2): return 'w%s<%s>(%s,%s)' % ({0: 'add', 1: 'sub', 2: 'mul'}[e[1]], T, a, b)
@@ -242,6 +242,7 @@ def modelled(c):
     """cases the Z-valued Coq model can decide exactly"""
     if c['kind'] == 'divnum' or c['stream'] in ('special', 'frac'): return False
     ops = ops_of(c['tree'])
+    if ('un', 4) in ops: return False          # sqrt is not part of the Z model
     if TY[c['ty']][2]:
         # floats: integer-valued data, exact operators only (no division, no sqrt)
         if ('bin', 3) in ops or ('un', 4) in ops or c['aop'] == 3: return False
